@@ -3,7 +3,7 @@ import StoneVerif.Lemmas.FeCompileFuel
 import StoneVerif.Lemmas.FeCompileAcyclic
 set_option linter.unusedSimpArgs false
 /-!
-Legal declarations go through pass 3 (`_populate_type_attributes`) of the compile model: no alias is refused, no
+LegalCore declarations go through pass 3 (`_populate_type_attributes`) of the compileCore model: no alias is refused, no
 population of a type fails, whatever the order.
 -/
 namespace StoneVerif.FeCompile.L
